@@ -22,7 +22,7 @@ RULE = ('source port trees to depth 3 over names {a, ab, abc, b, x} (so names ar
         'selects a strict subset')
 RULE += ('; also: empty namespaces, a reused options dictionary, targets below existing namespaces, a second narrower exposure of the same class, a destination port under the name of an excluded source port')
 ASSUMPTIONS = ['an empty include list is treated by the code as "no filter" and is outside the quantifier', 'reference model written from the property statement']
-REQUIRED = ['portless_sources', 'source_namespaces_made_by_lookup', 'rejected_with_ports_of_its_own', 'later_exposures', 'only_destination_has_own_namespace_class', 'target_had_properties_of_its_own', 'other_separator', 'deep_targets', 'path_lookups', 'deep_path_lookups', 'exposes', 'include_cases', 'exclude_cases', 'prefix_sibling_cases', 'nested_rule_cases', 'attr_checks', 'mutation_probes', 'both_rejected',
+REQUIRED = ['own_port_under_selected_name', 'portless_sources', 'source_namespaces_made_by_lookup', 'rejected_with_ports_of_its_own', 'later_exposures', 'only_destination_has_own_namespace_class', 'target_had_properties_of_its_own', 'other_separator', 'deep_targets', 'path_lookups', 'deep_path_lookups', 'exposes', 'include_cases', 'exclude_cases', 'prefix_sibling_cases', 'nested_rule_cases', 'attr_checks', 'mutation_probes', 'both_rejected',
             'namespace_option_cases', 'preexisting_kept', 'options_reused', 're_exposures', 'own_port_under_excluded_name', 'renamed_source_ports']
 BOUNDS = {'quick': '40 trees x all single rules and pairs', 'thorough': '600 trees, rule sets up to 3'}
 NAMES = ['a', 'ab', 'abc', 'b', 'x']
@@ -361,10 +361,18 @@ def run_case(case):
             if '.' not in r:
                 (dest.input if kind == 'in' else dest.output)(r, help='mine-' + r, required=False)
                 own_excluded.append(r)
+    own_selected = None
+    if case['pre'] and not case['target'] and case['mode'] in ('include', 'exclude'):
+        # ... and one under the name of a leaf port that the rules do select: the exposed port takes its place (ports of the same name are
+        # overwritten, as absorb documents), it is not kept because "there is one already"
+        chosen = model_selected(case['tree'], case['mode'], case['rules'])
+        own_selected = next((n for n, d in chosen.items() if d[0] == 'port' and n not in own_excluded), None)
+        if own_selected is not None:
+            (dest.input if kind == 'in' else dest.output)(own_selected, help='mine-' + own_selected, required=False)
     pre_desc = describe(droot)
     expose = dest.expose_inputs if kind == 'in' else dest.expose_outputs
     obs = {'exposes': 1, 'include_cases': 0, 'exclude_cases': 0, 'prefix_sibling_cases': 0, 'nested_rule_cases': 0, 'attr_checks': 0,
-           'portless_sources': int(bool(case.get('portless'))), 'source_namespaces_made_by_lookup': made_dynamically, 'renamed_source_ports': int(bool(case.get('renamed'))), 'target_had_properties_of_its_own': obs_pre_root, 'other_separator': int(slash), 'only_destination_has_own_namespace_class': int(case.get('slash') == 'dest'), 'deep_targets': int(str(case.get('target') or '').count('.') >= 2), 'mutation_probes': 0, 'both_rejected': 0, 'namespace_option_cases': 0, 'preexisting_kept': 0, 'options_reused': 0}
+           'own_port_under_selected_name': int(own_selected is not None), 'portless_sources': int(bool(case.get('portless'))), 'source_namespaces_made_by_lookup': made_dynamically, 'renamed_source_ports': int(bool(case.get('renamed'))), 'target_had_properties_of_its_own': obs_pre_root, 'other_separator': int(slash), 'only_destination_has_own_namespace_class': int(case.get('slash') == 'dest'), 'deep_targets': int(str(case.get('target') or '').count('.') >= 2), 'mutation_probes': 0, 'both_rejected': 0, 'namespace_option_cases': 0, 'preexisting_kept': 0, 'options_reused': 0}
     viol = []
     mode, rules = case['mode'], case['rules']
     shape = '%s:%s' % (mode, kind)
